@@ -448,6 +448,8 @@ class MemoryFS(FS):
         dst_dir, dst_name = split(self.validatepath(dst_path))
 
         with self._lock:
+            if not src_name:
+                raise errors.FileExpected(src_path)
             src_dir_entry = self._get_dir_entry(src_dir)
             if src_dir_entry is None or src_name not in src_dir_entry:
                 raise errors.ResourceNotFound(src_path)
@@ -571,6 +573,9 @@ class MemoryFS(FS):
         _path = self.validatepath(path)
 
         with self._lock:
+            if _path == "/":
+                raise errors.FileExpected(path)
+
             dir_path, file_name = split(_path)
             parent_dir_entry = self._get_dir_entry(dir_path)
 
@@ -650,15 +655,9 @@ class MemoryFS(FS):
         # type: (Text, RawInfo) -> None
         _path = self.validatepath(path)
         with self._lock:
-            dir_path, file_name = split(_path)
-            parent_dir_entry = self._get_dir_entry(dir_path)
-
-            if parent_dir_entry is None or file_name not in parent_dir_entry:
+            resource_entry = self._get_dir_entry(_path)
+            if resource_entry is None:
                 raise errors.ResourceNotFound(path)
-
-            resource_entry = typing.cast(
-                _DirEntry, parent_dir_entry.get_entry(file_name)
-            )
 
             if "details" in info:
                 details = info["details"]
